@@ -14,6 +14,7 @@ Monitors.
     leave labels a subset of the saved ones (truncations / structural
     corruptions), and produce a complete loadable file again.
 (3) random save/corrupt/restore histories across two renderers against a model."""
+import json
 import os, pickle, re, tempfile, traceback, io
 from .. import common
 from ..instrument import wrap
@@ -616,6 +617,12 @@ def run_seq(case, st):
             else:
                 # the file had been corrupted: whatever survived loading was merged; resynchronise on the file
                 model = d if all(isinstance(v, dict) and all(isinstance(x, dict) for x in v.values()) for v in d.values()) else 'corrupt'
+                if model is d:
+                    # (a damaged pickle may load into a structure that contains itself: nothing to compare later files with)
+                    try:
+                        json.dumps(d, default=str)
+                    except (ValueError, RecursionError):
+                        model = 'corrupt'
         elif op[0] == 'restore':
             ctx = fresh_ctx()
             ex = call(ctx.restore, path, op[1])
